@@ -47,6 +47,10 @@
 (*   sent     events on which an order was sent (= in-flight records)      *)
 (*   exch     account events the execution side still has to deliver       *)
 (*   applied  account events the engine has applied, in order              *)
+(*   clock    the run's HistoricalClock, in dataset time: the index of the  *)
+(*            latest market item this run's engine has processed           *)
+(*   stamps   the clock reading each sent order was stamped with (request   *)
+(*            time -> fill, balance and position-entry timestamps)          *)
 (*   sdSent, phase ("run" -> "stopped" -> "done"), fatal, summary          *)
 (*                                                                         *)
 (* Every action is  run' = [run EXCEPT ![b] = F(run[b])]  with F a         *)
@@ -80,6 +84,11 @@
 (* dropped and panic - outside C20).                                        *)
 (* Dataset items are ALL items of the market stream, Reconnecting items     *)
 (* ("r") included, wherever they stand - also before the first market item.*)
+(* The clock of a run is a function of that run's own consumed prefix       *)
+(* (backtest() builds a fresh HistoricalClock per run): Isolation covers    *)
+(* it - no run's timestamps may follow another run's progress. The wall-    *)
+(* clock delta the real clock adds on top is abstracted away (the binding   *)
+(* allows a slack far below the spacing of the datasets' exchange times).   *)
 (* Fixed by the property (NOT left open): market items reach the engine in *)
 (* dataset order, each once; Shutdown is sent only after the forwarder     *)
 (* finished; a run reads and writes its own record only.                   *)
@@ -115,6 +124,7 @@ Summ(r)     == [made |-> TRUE, consumed |-> Len(r.consumed),
                 trades |-> [j \in 1..Len(Trades(r)) |-> Trades(r)[j].i], balances |-> Balances(r)]
 
 InitRun(p) == [p |-> p, cursor |-> 0, feed |-> <<>>, consumed |-> <<>>, sent |-> <<>>,
+               clock |-> 0, stamps |-> <<>>,
                exch |-> {SnapshotItem}, applied |-> <<>>, sdSent |-> FALSE,
                phase |-> "run", fatal |-> FALSE, summary |-> NoSummary]
 
@@ -139,7 +149,10 @@ DoSendShutdown(r)  == [r EXCEPT !.sdSent = TRUE, !.feed = Append(@, ShutdownItem
 \* Engine::process, one arm per event kind (the engine pops the head of the feed)
 CanStep(r)   == r.phase = "run" /\ r.feed # <<>>
 Popped(r)    == [r EXCEPT !.feed = Tail(@)]
-Consume(r)   == [Popped(r) EXCEPT !.consumed = Append(@, Head(r.feed))]
+\* (HistoricalClock::process: a market item with a newer exchange time moves the clock; a
+\*  Reconnecting item carries no time)
+Consume(r)   == [Popped(r) EXCEPT !.consumed = Append(@, Head(r.feed)),
+                                  !.clock = IF Head(r.feed).t = "m" /\ Head(r.feed).i > @ THEN Head(r.feed).i ELSE @]
 \* market item: the data states process it, then the strategy generates its algo orders
 DoStepMarket(r) ==
     LET h == Head(r.feed) IN
@@ -147,6 +160,7 @@ DoStepMarket(r) ==
     ELSE IF h.i \in r.p.fatalAt
          THEN [Consume(r) EXCEPT !.phase = "stopped", !.fatal = TRUE]     \* unrecoverable: engine stops
          ELSE [Consume(r) EXCEPT !.sent = Append(@, h.i),
+                                 !.stamps = Append(@, Consume(r).clock),    \* request time = own clock
                                  !.exch = @ \cup {Acct(h.i, kd) : kd \in OrderKinds}]
 DoStepDisc(r)     == Consume(r)
 DoStepAccount(r)  == [Popped(r) EXCEPT !.applied = Append(@, Head(r.feed))]
@@ -202,6 +216,7 @@ MarketItems(s) == SelectSeq(s, LAMBDA x : x.t \in {"m", "r"})
 TypeOK1(r) ==
     /\ ParamOK(r.p)
     /\ r.cursor \in 0..r.p.n
+    /\ r.clock \in 0..r.p.n
     /\ r.phase \in {"run", "stopped", "done"}
     /\ r.fatal \in BOOLEAN /\ r.sdSent \in BOOLEAN
     /\ \A j \in 1..Len(r.feed) : r.feed[j].t \in {"m", "r", "a", "sd"}
@@ -231,6 +246,14 @@ IdsOf(s)   == [j \in 1..Len(s) |-> s[j].i]
 SentOK1(r) == \E acted \in {SelectSeq(r.consumed, LAMBDA x : x.i \in r.p.acts \ r.p.fatalAt)} :
                  r.sent = IdsOf(acted)
 
+\* ClockOwn: the clock is a function of the run's own consumed prefix (the latest market item it
+\* has processed), and every order is stamped with the time of the event it was opened on
+ClockOwn1(r) ==
+    /\ \E ms \in {SelectSeq(r.consumed, LAMBDA x : x.t = "m")} :
+          r.clock = IF ms = <<>> THEN 0 ELSE ms[Len(ms)].i
+    /\ Len(r.stamps) = Len(r.sent)
+    /\ \A j \in 1..Len(r.sent) : r.stamps[j] = r.sent[j]
+
 \* account events concern this run's own orders only, each at most once
 AppliedOK1(r) ==
     \A j \in 1..Len(r.applied) :
@@ -243,13 +266,14 @@ SummaryOK1(r) == /\ r.summary.made <=> r.phase = "done"
                  /\ r.phase = "done" => r.summary = Summ(r)
 
 Inv1(r) == TypeOK1(r) /\ PrefixAlways1(r) /\ CompleteInOrder1(r) /\ FeedInOrder1(r)
-           /\ SentOK1(r) /\ AppliedOK1(r) /\ SummaryOK1(r)
+           /\ SentOK1(r) /\ ClockOwn1(r) /\ AppliedOK1(r) /\ SummaryOK1(r)
 
 TypeOK          == \A b \in Runs : TypeOK1(run[b])
 PrefixAlways    == \A b \in Runs : PrefixAlways1(run[b])
 CompleteInOrder == \A b \in Runs : CompleteInOrder1(run[b])
 FeedInOrder     == \A b \in Runs : FeedInOrder1(run[b])
 SentOK          == \A b \in Runs : SentOK1(run[b])
+ClockOwn        == \A b \in Runs : ClockOwn1(run[b])
 AppliedOK       == \A b \in Runs : AppliedOK1(run[b])
 SummaryOK       == \A b \in Runs : SummaryOK1(run[b])
 
@@ -263,6 +287,7 @@ Isolation == [][\E b \in Runs : /\ Step1(run[b], run'[b])
 \* consumed / sent / applied only grow; phases only advance; a finished run never changes
 Mono1(r, r2) == /\ IsPrefix(r.consumed, r2.consumed)
                 /\ IsPrefix(r.sent, r2.sent)
+                /\ IsPrefix(r.stamps, r2.stamps) /\ r.clock <= r2.clock
                 /\ IsPrefix(r.applied, r2.applied)
                 /\ r.phase = "done" => r2 = r
                 /\ r.phase = "stopped" => r2.phase # "run"
